@@ -170,7 +170,9 @@ def run_property(pid, tier, replay=None):
     # evidence
     passed = [i for i in all_inst if i["status"] == "pass"]
     und = [i for i in all_inst if i["status"] == "undecided"]
-    distinct = {(i["rule"], i["construct"]) for i in all_inst if i["status"] in ("pass", "VIOLATION") and i.get("reason") != "anchor-missing"}
+    # non-trivial: the instance's anchor existed and an analysis was actually evaluated for it (table exemptions and missing anchors are not)
+    distinct = {(i["rule"], i["construct"]) for i in all_inst if i["status"] in ("pass", "VIOLATION") and i.get("reason") != "anchor-missing"
+                and not str(i.get("found", "")).startswith("exempt")}
     samples = []
     seen_rules = set()
     for i in all_inst:
@@ -184,10 +186,11 @@ def run_property(pid, tier, replay=None):
             "explanation": info.get("explanation", ""),
             "evaluations": len(all_inst),
             "distinct_nontrivial": len(distinct),
-            "rule": "rule instances enumerated from /repo's MIR facts and Accounts constraints; an instance is non-trivial when its anchor exists and at least one candidate site was examined; distinct = distinct (rule id, construct key)",
+            "rule": "rule instances (rule id, construct) enumerated from /repo's MIR facts and Accounts constraints on this run; `instances` lists every one with its verdict and source location; an instance is non-trivial when its anchor exists and an analysis was evaluated for it (rows answered from an exemption table are counted in evaluations only); distinct = distinct (rule id, construct key) across feature configurations",
             "samples": samples,
             "passed": len(passed), "undecided": len(und), "undecided_list": [(i["rule"], i["construct"]) for i in und][:60],
             "rules": sorted({i["rule"] for i in all_inst}),
+            "instances": [[i["rule"], i["construct"], i["status"], i.get("loc"), i.get("config")] for i in all_inst][:6000],
             "floors": floors,
             "tables": tables,
             "exhaustive": bool(tables),
